@@ -1006,6 +1006,12 @@ func parseModItem(s string) (ModItem, error) {
 		if r[j+1:] == "*" {
 			mi.Kind = "tfields"
 			mi.Name = r[:j]
+		} else if strings.HasSuffix(r, "{*}") {
+			mi.Kind = "tmap"
+			mi.Name = strings.TrimSuffix(r, "{*}")
+		} else if strings.HasSuffix(r, "[*]") {
+			mi.Kind = "tfelems"
+			mi.Name = strings.TrimSuffix(r, "[*]")
 		} else {
 			mi.Kind = "tfield"
 		}
@@ -1017,6 +1023,15 @@ func parseModItem(s string) (ModItem, error) {
 			return mi, err
 		}
 		mi.Kind = "cell"
+		mi.E = e
+		return mi, nil
+	}
+	if strings.HasSuffix(s, "{*}") {
+		e, err := parseExpr(s[:len(s)-3])
+		if err != nil {
+			return mi, err
+		}
+		mi.Kind = "map"
 		mi.E = e
 		return mi, nil
 	}
